@@ -410,6 +410,9 @@ func mustSame[T comparable](a, b T, panicStr string) {
 // ChannelLength calculates a channel length for provided Buffer length and
 // number of channels.
 func ChannelLength(sliceLen, channels int) int {
+	if channels == 0 {
+		return 0
+	}
 	return int(math.Ceil(float64(sliceLen) / float64(channels)))
 }
 
@@ -489,5 +492,8 @@ func WriteStriped[S, D SignalTypes](src [][]S, dst *Buffer[D]) (written int) {
 // alignCapacity ensures that Buffer capacity is aligned with number of
 // channels.
 func alignCapacity(s interface{}, channels, c int) {
+	if channels == 0 {
+		return
+	}
 	reflect.ValueOf(s).Elem().SetCap(c - c%channels)
 }
